@@ -499,7 +499,26 @@ impl<'f> Exec<'f> {
         (first, out)
     }
 
+    /// A panic inside the library is an outcome, not a crash of the harness: for a read or a write it
+    /// is a violation (the statement promises a node or None); inside a query it is not C09's business.
     pub fn step(&mut self, i: usize, op: &Op) -> StepOut {
+        let r = std::panic::catch_unwind(std::panic::AssertUnwindSafe(|| self.step_inner(i, op)));
+        match r {
+            Ok(o) => o,
+            Err(_) => match op {
+                Op::Read { path, .. } => StepOut { viol: Some(self.viol(i, "read-panic", path, None, "reference panicked".into())), reported: vec![] },
+                Op::Write { path, .. } => StepOut { viol: Some(self.viol(i, "write-panic", path, None, "reference_mut (or the write through it) panicked".into())), reported: vec![] },
+                Op::Capture { .. } | Op::UpdateAll { .. } => {
+                    self.stats.query_errors += 1;
+                    // the document may be half-written after a panic inside UpdateAll: re-align the model
+                    self.model = self.doc.clone();
+                    StepOut { viol: None, reported: vec![] }
+                }
+            },
+        }
+    }
+
+    fn step_inner(&mut self, i: usize, op: &Op) -> StepOut {
         match op {
             Op::Read { path, .. } => {
                 self.stats.bump("read");
@@ -1152,6 +1171,8 @@ pub fn chunk_main() -> i32 {
         }
     };
     let findings = report::load_findings("C09");
+    crate::c12::install_panic_hook();
+    std::env::set_var("VERIF_QUIET_PANICS", "1");
     let out = run_chunk(&req, &findings);
     println!("{}", serde_json::to_string(&out).unwrap());
     0
@@ -1169,6 +1190,8 @@ pub fn exec_main() -> i32 {
         }
     };
     let findings = report::load_findings("C09");
+    crate::c12::install_panic_hook();
+    std::env::set_var("VERIF_QUIET_PANICS", "1");
     let (v, _, seen) = exec_history(&h, &findings);
     println!("{}", serde_json::to_string(&json!({"viol": v, "kf": seen})).unwrap());
     0
